@@ -184,8 +184,9 @@ pub fn run(tape: &mut Tape, props: Props, p: &Params, trace_on: bool) -> Outcome
     }
     let backpressure = tape.draw(4) == 3;
     let mut link = LinkCfg::draw(tape, if p.thorough { 60 } else { 20 });
-    // checksum offload variants (rare); corruption only when everything is verified in software
+    // checksum capability variants (rare); a frame is damaged only when its receiver verifies every checksum covering it
     link.corrupt_ok = [true, true];
+    link.rx_verify = Some(draw_checksum_caps(tape, &mut cfgs));
     let mut nodes = vec![build_node(&cfgs[0]), build_node(&cfgs[1])];
     let views = vec![cfgs[0].view(), cfgs[1].view()];
     let addrs = [cfgs[0].addrs[0].0, cfgs[1].addrs[0].0];
@@ -235,7 +236,7 @@ pub fn run(tape: &mut Tape, props: Props, p: &Params, trace_on: bool) -> Outcome
         }
     }
     let ops = tape.range(5, if p.thorough { 400 } else { 120 }) as u32;
-    let desc = format!("dgram-pair medium={:?} v6={} /{} mtu={:?} backpressure={} frag_heavy={} exact={} ops={} socks:{} {}", medium, v6, subnet, mtu, backpressure, p.frag_heavy, p.exact, ops, desc_socks, link.describe());
+    let desc = format!("dgram-pair medium={:?} v6={} /{} mtu={:?} backpressure={} frag_heavy={} exact={} ops={} csum=[{:?},{:?}] socks:{} {}", medium, v6, subnet, mtu, backpressure, p.frag_heavy, p.exact, ops, cfgs[0].csum, cfgs[1].csum, desc_socks, link.describe());
     let mut w = World::new(nodes, views, link, props, trace_on);
     w.schedule(0, Ev::App { node: 0 });
     w.schedule(0, Ev::App { node: 1 });
@@ -450,7 +451,8 @@ fn on_arrive(w: &mut World, st: &mut St, to: usize, p: &Packet, alone: bool) -> 
             st.poison_until[to] = st.poison_until[to].max(now + 61_000_000);
         }
         let fake = Ip { src: acc.src, dst: acc.dst, proto: acc.proto, hop: ip.hop, v4: None, hbh: None, payload: acc.bytes, hdr_len: 20 };
-        match decode_l4(&fake, &Verify::all()) {
+        // (judged as the sender's own frames are: a checksum its device is meant to fill in is not there yet)
+        match decode_l4(&fake, &w.views[1 - to].tx_verify) {
             Ok(l4) => (l4, acc.src, acc.dst),
             Err(_) => return Ok(None),
         }
